@@ -20,6 +20,7 @@ import (
 	"github.com/nuetzliches/hookaido/internal/config"
 	"github.com/nuetzliches/hookaido/internal/httpheader"
 	"github.com/nuetzliches/hookaido/internal/queue"
+	"github.com/nuetzliches/hookaido/internal/verifhook"
 )
 
 const (
@@ -2299,6 +2300,7 @@ func (s *Server) handleMessagesPublish(w http.ResponseWriter, r *http.Request) {
 		auditTarget = ""
 	}
 
+	verifhook.Point("admin.publish.before_200")
 	w.Header().Set("Content-Type", "application/json")
 	_ = json.NewEncoder(w).Encode(messagesPublishResponse{
 		Published: published,
